@@ -81,7 +81,7 @@ def short(h):
     return ["%s(%s)" % (s["c"]["op"], ", ".join("%s=%s" % (k, v) for k, v in sorted(s["c"].items()) if k != "op" and v not in (-1, 0, "", "m") or k in ("d", "n") and v != -1)) for s in h]
 
 
-def replay(t, rep, rng, curve0):
+def replay_one(t, rep, rng, curve0):
     h = t["h"]
     w = World(curve0, rng)
     for i, s in enumerate(h):
@@ -153,7 +153,7 @@ def main(tier):
                 raise common.MachineryError("no transitions emitted")
             for t in trs:
                 hist = t["h"]
-                replay(t, rep, rng, hist[0]["cv"])      # cv: length of the curve's arrays before the step
+                replay_one(t, rep, rng, hist[0]["cv"])      # cv: length of the curve's arrays before the step
                 n += 1
                 op = hist[-1]["c"]["op"]
                 ops[op] = ops.get(op, 0) + 1
